@@ -184,6 +184,53 @@ def h_from_geopolygon(res, mode, pin):
     check_resolution_box(g, region, res, axy, tol)
 
 
+class _TriPoly:
+    """a triangle (l,b) (r,b) (l,t) in one CRS; to_crs() maps every VERTEX through a stand-in for
+    the CRS change that mixes the axes (x' = x + y/2, y' = y): the image of the polygon is smaller
+    than the image of its bounding box"""
+
+    def __init__(self, pts, crs):
+        from odc.geo.crs import norm_crs
+
+        self.pts, self.crs = pts, norm_crs(crs)
+
+    @property
+    def boundingbox(self):
+        from odc.geo.geom import BoundingBox
+
+        xs, ys = [p[0] for p in self.pts], [p[1] for p in self.pts]
+        mn, mx_ = (min, max) if symx.concrete_mode() else (lambda *a: symx.m_min(*a), lambda *a: symx.m_max(*a))
+        return BoundingBox(mn(*xs), mn(*ys), mx_(*xs), mx_(*ys), self.crs)
+
+    def to_crs(self, crs, *a, **kw):
+        return _TriPoly([(x + y / 2, y) for x, y in self.pts], crs)
+
+
+def h_from_geopolygon_other_crs(res):
+    """from_geopolygon(poly, crs=<another CRS>): the polygon itself is taken to the other CRS, the
+    GeoBox covers its image there and is less than a pixel larger than that image needs"""
+    import odc.geo.geobox as gbx
+    import odc.geo.geom as gm
+    from odc.geo.types import resxy_
+
+    bbox, (l, b, r, t) = mk_region("y", crs="epsg:4326")
+    tri = [(bbox.left, bbox.bottom), (bbox.right, bbox.bottom), (bbox.left, bbox.top)]
+    poly = _TriPoly(tri, "epsg:4326")
+    rx, ry = F(res[0]), F(res[1])
+    tol = mk_tol("1/100")
+    saved = gm.box
+    gm.box = lambda l_, b_, r_, t_, crs: _TriPoly([(l_, b_), (l_, t_), (r_, t_), (r_, b_)], crs)  # BoundingBox.polygon, should the code go through it
+    try:
+        g = gbx.GeoBox.from_geopolygon(poly, resxy_(rconst(rx), rconst(ry)), crs="epsg:3857", tol=tol)
+    finally:
+        gm.box = saved
+    img = [(x + y / 2, y) for x, y in ((l, b), (r, b), (l, t))]
+    xs = [p[0] for p in img]
+    region2 = (min(xs), b, max(xs), t) if symx.concrete_mode() else (symx.m_min(*xs), b, symx.m_max(*xs), t)
+    prove("crs_is_the_requested_one", str(g.crs) == "EPSG:3857")
+    check_resolution_box(g, region2, res, (F(0), F(0)), tol)
+
+
 def h_shape(shape, span, anchor, tight, pin):
     """shape-driven construction: exact shape, pixel = span/shape, displaced < 1 pixel (not at
     all when snapping is off)"""
@@ -325,6 +372,10 @@ OBLIGATIONS = [
                                                      [dict(res=r, mode=m, pin=p) for r in RES_T[:3] for m in ("default", "align", "align_zero", "center", "tight") for p in ("x", "y")]),
        descr="from_geopolygon: same contract through the polygon's bounding box; legacy align= is the anchor in CRS units", functions=("odc.geo.geobox.GeoBox.from_geopolygon", "odc.geo.geobox.GeoBox.from_bbox"),
        stubs=("object exposing .crs/.boundingbox in place of the polygon",), setup=setup, timeout_ms=20000),
+    Ob("B_from_geopolygon_other_crs", h_from_geopolygon_other_crs, fixed(dict(res=["10", "-10"]), dict(res=["1/4", "1/3"])),
+       descr="from_geopolygon(poly, crs=other): the polygon (not its bounding box) is taken to the other CRS; the GeoBox covers the image and is < 1 pixel (+tol) larger than it needs",
+       functions=("odc.geo.geobox.GeoBox.from_geopolygon", "odc.geo.geobox.GeoBox.from_bbox"), bounds="triangle with a symbolic x extent (y pinned); the CRS change stands in as the vertex map x' = x + y/2, y' = y",
+       stubs=("vertex-list polygon whose to_crs() applies the stand-in map per vertex (PROJ itself is outside the claim)",), setup=setup, timeout_ms=20000),
     Ob("B5_shape", h_shape, _shape_params, descr="from_bbox(shape=): exact shape, pixel = span/shape, displaced < 1 pixel and snapped as requested, not displaced when tight/floating",
        functions=("odc.geo.geobox.GeoBox.from_bbox", "odc.geo.math.snap_grid"), bounds="shape and span from grid; region position symbolic", setup=setup, timeout_ms=30000),
     Ob("B5_shape_int", h_shape_int, fixed(dict(n=7, span=["70", "30"], pin="x"), dict(n=5, span=["1", "10"], pin="y")), descr="shape=<int>: longest side, square pixels", functions=("odc.geo.geobox.GeoBox.from_bbox",), setup=setup),
